@@ -408,6 +408,10 @@ func c04Scenarios(thorough bool) []*scenario {
 		[]podSpec{nsPod("a", "mem", tM3G, nil), nsPod("b", "mem", tM3G, nil), nsPod("c", "two", tBM3G, nil)}, lm)
 	add("bl/mem/pmem/M5G-M3G(pmem)-BM6G", polBalloons, machinePMEM(), []cfgSpec{blCfg("mem", memBl)},
 		[]podSpec{nsPod("a", "mem", tM5G, nil), nsPod("b", "mem", tM3G, pmemAnn), nsPod("c", "two", tBM6G, nil)}, lm)
+	// one balloon that inflates from one NUMA node across both: the zones of the containers already in it must follow
+	growBl := []*blcfg.BalloonDef{{Name: "grow", Namespaces: []string{"grow"}, MaxBalloons: 1}}
+	add("bl/mem/grow-across-nodes/G2-G4-G1M1G", polBalloons, machine8(), []cfgSpec{blCfg("grow", growBl)},
+		[]podSpec{nsPod("a", "grow", tG2, nil), nsPod("b", "grow", tG4, nil), nsPod("c", "grow", tG1M1G, nil)}, lm)
 	if thorough {
 		add("bl/mem/asym/M3G-M2G-M5G", polBalloons, machineAsym(), []cfgSpec{blCfg("mem", memBl)},
 			[]podSpec{nsPod("a", "mem", tM3G, nil), nsPod("b", "two", tM2G, nil), nsPod("c", "two", tM5G, nil)}, lm)
